@@ -119,7 +119,10 @@ def make_case(rng, i, tier):
         # start): the carried state dictionary is the only memory of the signature in force
         for t in pc["tracks"]:
             t["pad"] = pc["total"]
-    return {"cfg": cfg, "piece": pc, "route": route, "partition_seed": rng.randrange(10 ** 6), "share_bars": i % 3 == 0 and route != "raw"}
+    return {"cfg": cfg, "piece": pc, "route": route, "partition_seed": rng.randrange(10 ** 6), "share_bars": i % 3 == 0 and route != "raw",
+            # every fifth case: before every non-first call, a call on the SAME state dictionary that the tokeniser rejects (the chunk
+            # with a note outside the pitch range appended); a caller that catches the error and goes on must get the same stream
+            "rejected_between": i % 5 == 1 and route != "raw"}
 
 
 def _detok_obs(tok, toks):
@@ -218,6 +221,24 @@ def run(case, ctx):
                 continue
         for gi, (a, b) in enumerate(groups):
             chunk = [p[gi] for p in pieces] if raw else [Bar.to_sequence([bb if share else bb.copy() for bb in trk[a:b]]) for trk in tb]
+            if case.get("rejected_between") and gi >= 1 and not raw:
+                from scoda.elements.message import Message
+                from scoda.enumerations.message_type import MessageType as MT
+                bad = [Bar.to_sequence([bb.copy() for bb in trk[a:b]]) for trk in tb]
+                lo, hi = cfg["pitch"] if cfg.get("pitch") else (21, 108)
+                badp = hi + 1 if hi < 127 else lo - 1
+                T = sum(lens[a:b]) - 1
+                chn = next((m.channel for m in bad[0].abs._messages if m.message_type == MT.NOTE_ON), 0)
+                if 0 <= badp <= 127 and T >= 0:
+                    bad[0].add_absolute_message(Message(message_type=MT.NOTE_ON, channel=chn, note=badp, velocity=64, time=T))
+                    bad[0].add_absolute_message(Message(message_type=MT.NOTE_OFF, channel=chn, note=badp, time=T + 1))
+                    try:
+                        tok.tokenise(bad, state_dict=sd)
+                        LOG.n("c03.rejected_between.call_was_accepted")
+                        ok = None          # the call was accepted: the dictionary has legitimately moved on, this partition says nothing
+                        break
+                    except Exception:
+                        LOG.n("c03.rejected_between.call_raised")
             try:
                 toks += tok.tokenise(chunk, state_dict=sd)
             except Exception as e:
@@ -233,6 +254,8 @@ def run(case, ctx):
                                                                   "expected": (consumed, 0, cap_total)}))
                 ok = False
                 break
+        if ok is None:
+            continue
         if not ok:
             break
         got = _detok_obs(tok, toks)
